@@ -46,6 +46,22 @@ def isconfigtype(obj: Any) -> bool:
     return inspect.isclass(obj) and issubclass(obj, ConfigType)
 
 
+def config_schema(field: Any) -> Optional["Schema"]:
+    """
+    Get the schema that the configurations held by a field are created from.
+
+    :param field: a :class:`Schema`, a :class:`ConfigTypeField` or a :class:`ConfigType` class
+    :returns: the schema, ``None`` if the field does not hold configurations
+    """
+    if isinstance(field, Schema):
+        return field
+    if isinstance(field, ConfigTypeField):
+        field = field.config_type
+    if isconfigtype(field):
+        return field.__schema__
+    return None
+
+
 def copy_basic_value(value: Any) -> Any:
     """
     Copy a basic value: lists and dicts are copied at every level, anything else (scalars and
@@ -1086,6 +1102,13 @@ class Config:  # pylint: disable=too-many-instance-attributes
                 return value
 
         if isinstance(value, Config):
+            expected = config_schema(field)
+            if expected is not None and value._schema is not expected:
+                # a configuration created from another schema holds values this field's schema
+                # never validated
+                raise ValidationError(
+                    self, field, "configuration was created from a different schema"
+                )
             value._parent = self
             value._key = key
         elif isinstance(value, dict) and isinstance(field, (Schema, ConfigTypeField)):
